@@ -92,6 +92,11 @@ impl MethodSink {
 		self.send(json).await
 	}
 
+	/// Waits for space on the return channel and reserves it for one message.
+	pub(crate) async fn reserve(&self) -> Result<mpsc::Permit<'_, Box<RawValue>>, DisconnectError> {
+		self.tx.reserve().await.map_err(|_| DisconnectError(RawValue::NULL.to_owned().into()))
+	}
+
 	/// Similar to `MethodSink::send` but only waits for a limited time.
 	pub async fn send_timeout(&self, msg: Box<RawValue>, timeout: Duration) -> Result<(), SendTimeoutError> {
 		self.tx.send_timeout(msg, timeout).await.map_err(Into::into)
